@@ -438,6 +438,11 @@ func c04Program(c *Ctx, b *Batch, pkg string, cs c04Case, src string, per int) {
 			c.Res.Add(proto.Finding{Kind: "violation", Class: "input-struct-shape", What: fmt.Sprintf("%s: %s has %d fields for %d declared variables", opName, inputName, len(fields), len(op.VariableDefinitions)), Case: cs})
 			continue
 		}
+		// programs without any @genqlient comment: which variables and input-object fields are omitempty is then a
+		// function of the configuration alone (documented: only input-object-typed ones under use_struct_references)
+		if noDirectives(cs.Ops) {
+			c04DocumentedOmitempty(c, cs, schema, decls, inputName, op, fields)
+		}
 		for k := 0; k < per; k++ {
 			g := &c04gen{schema: schema, decls: decls, bindings: cs.Cfg.Bindings, r: proto.NewRng(c.Seed^cs.Seed, "c04/"+opName, uint64(k))}
 			var args []string
@@ -789,3 +794,62 @@ func c04Coerces(schema *ast.Schema, t *ast.Type, v any, path string) string {
 	return ""
 }
 
+
+
+func noDirectives(ops map[string]string) bool {
+	for _, t := range ops {
+		if strings.Contains(t, "@genqlient") {
+			return false
+		}
+	}
+	return true
+}
+
+// c04DocumentedOmitempty: without @genqlient comments, a variable or input-object field is tagged omitempty exactly
+// when use_struct_references is on and its (unwrapped) type is an input object; anything else would make the helper
+// drop a value the caller passed.
+func c04DocumentedOmitempty(c *Ctx, cs c04Case, schema *ast.Schema, decls *goDecls, inputName string, op *ast.OperationDefinition, fields []goField) {
+	omitOf := func(owner string, f goField) bool {
+		if f.JSON == "-" {
+			if pf, ok := decls.premarshalFields[owner][f.Name]; ok {
+				return pf.Omit
+			}
+		}
+		return f.Omit
+	}
+	check := func(where, gqlType string, got bool) {
+		d := schema.Types[gqlType]
+		want := cs.Cfg.StructReferences && d != nil && d.Kind == ast.InputObject
+		c.Res.Count("documented-omitempty:compared")
+		if got != want {
+			c.Res.Add(proto.Finding{Kind: "violation", Class: "omitempty-not-documented", What: fmt.Sprintf("%s (GraphQL type %s) is tagged omitempty=%v; with no @genqlient comment in the program and use_struct_references=%v the documented value is %v",
+				where, gqlType, got, cs.Cfg.StructReferences, want), Case: cs})
+		}
+	}
+	for i, v := range op.VariableDefinitions {
+		check("variable $"+v.Variable+" of "+op.Name, v.Type.Name(), omitOf(inputName, fields[i]))
+	}
+	// input objects reachable from the variables, by their Go names
+	seen := map[string]bool{}
+	var visit func(name string)
+	visit = func(name string) {
+		d := schema.Types[name]
+		if d == nil || d.Kind != ast.InputObject || seen[name] {
+			return
+		}
+		seen[name] = true
+		goName := strings.ToUpper(name[:1]) + name[1:]
+		fs, ok := decls.structs[goName]
+		if ok && len(fs) == len(d.Fields) {
+			for i, f := range d.Fields {
+				check("field "+name+"."+f.Name, f.Type.Name(), omitOf(goName, fs[i]))
+			}
+		}
+		for _, f := range d.Fields {
+			visit(f.Type.Name())
+		}
+	}
+	for _, v := range op.VariableDefinitions {
+		visit(v.Type.Name())
+	}
+}
